@@ -273,6 +273,12 @@ def sched_env(args, result, ns):
     return dict(args["args"])
 
 
+def lpsd_env(args, result, ns):
+    d = dict(args["args"])
+    d.update(bmin=1.0, Lmin=1)
+    return d
+
+
 def sched_foreach(args, result, ns):
     nf = int(result["nf"])
     idx = list(range(nf)) if nf <= 60 else sorted(set(list(range(20)) + list(range(nf - 20, nf)) + list(range(0, nf, max(1, nf // 20)))))
@@ -306,4 +312,4 @@ def sched_from_model(model, rng):
 
 for _u in UNITS:
     if _u.id.startswith("schedulers.") and _u.id.endswith("_plan"):
-        _u.runtime = dict(sample=sched_sample, call=sched_call(_u.func), env=sched_env, foreach=sched_foreach, from_model=sched_from_model, n_quick=40, n_thorough=400, n_search=300, skip_requires=(), scale=lambda a, r: 1e-3)
+        _u.runtime = dict(sample=sched_sample, call=sched_call(_u.func), env=(lpsd_env if _u.func == "lpsd_plan" else sched_env), foreach=sched_foreach, from_model=sched_from_model, n_quick=40, n_thorough=400, n_search=300, skip_requires=(), scale=lambda a, r: 1e-3)
